@@ -109,6 +109,10 @@ def gen_tree(draw, d, counter, ops_mode):
         return gen_atom(draw, counter)
     kind = draw(st.sampled_from(['and', 'or', 'not', 'and', 'or']))
     if kind == 'not':
+        if draw(st.sampled_from(range(3))) == 0:
+            # an even number of negations around a child whose result is not the target
+            inner = ['and', [['M'], ['val', ['i', draw(st.integers(7, 9))]]]] if draw(st.booleans()) else gen_tree(draw, d - 1, counter, ops_mode)
+            return ['not', ['not', inner]]
         return ['not', gen_tree(draw, d - 1, counter, ops_mode)]
     n = draw(st.integers(1, 3)) if not ops_mode else draw(st.integers(2, 3))
     kids = [gen_tree(draw, d - 1, counter, ops_mode) for _ in range(n)]
